@@ -28,6 +28,7 @@
 (define-fun KFparens ((k Str)) Bool
   (or (= k "iif") (= k "iff") (= k "isnotnull") (= k "isnull") (= k "not") (= k "strcat") (= k "tolower") (= k "toupper")))
 
+(define-fun identNamed ((n Node) (k Str)) Bool (and ((_ is mk_Ident) n) (= (Ident.Name n) k)))
 ; which side(s) of a join an expression mentions (result of hasJoinTerms)
 (declare-fun hasLeft (Node) Bool)
 (declare-fun hasRight (Node) Bool)
